@@ -2,6 +2,7 @@
 pub mod c01;
 pub mod c02;
 pub mod c03;
+pub mod c04;
 pub mod c05;
 pub mod c10;
 pub mod c13;
@@ -13,6 +14,7 @@ pub fn by_id(id: &str) -> Option<&'static dyn Prop> {
         "C01" => Some(&c01::C01),
         "C02" => Some(&c02::C02),
         "C03" => Some(&c03::C03),
+        "C04" => Some(&c04::C04),
         "C05" => Some(&c05::C05),
         "C10" => Some(&c10::C10),
         "C13" => Some(&c13::C13),
